@@ -63,6 +63,29 @@ def shift_amount_of(fn, C, v):
             st += [o for o in d.ops]
     return None
 
+def shift_amount_ssa(fn, v):
+    """value v = (... | (1 << X)) or (... & (1 << X)): the SSA operand X"""
+    st, seen = [v], set()
+    while st:
+        x = strip_int_casts(fn, st.pop())
+        if x in seen:
+            continue
+        seen.add(x)
+        d = fn.defs.get(x)
+        if d is None:
+            continue
+        if d.op == 'shl' and d.ops[0] == '1':
+            return d.ops[1]
+        if d.op in ('or', 'and', 'sext', 'zext', 'trunc'):
+            st += [o for o in d.ops]
+    return None
+
+def pdiv(p, n):
+    from ..poly import Poly
+    if any(v % n for v in p.values()):
+        return None
+    return Poly({k: v // n for k, v in p.items()})
+
 def run(ctx):
     P = ctx.program()
     O = own.get(P)
@@ -88,6 +111,9 @@ def run(ctx):
     kexpr = 'arg0'
     for arr, role in zip(arrs, ('data', 'parity')):
         A, _ = derived_pointers(f, [arr])
+        if not any(s.op == 'store' and s.ops[1] in A and f.defs.get(strip_ptr_casts(f, s.ops[0])) is not None
+                   and f.defs[strip_ptr_casts(f, s.ops[0])].op == 'call' and f.defs[strip_ptr_casts(f, s.ops[0])].callee in O.returns_owned for s in f.insts()):
+            r.undecided(f'prepare_fragments_for_decode: fresh {role}[] buffers', loc=f.mod.src, msg=f'no store of a fresh allocation into {role}[] was recognised (anchor lost)')
         for s in f.insts():
             if s.op != 'store' or s.ops[1] not in A:
                 continue
@@ -124,14 +150,14 @@ def run(ctx):
         prep = [i for i in g.insts() if i.op == 'call' and i.callee == '@prepare_fragments_for_decode']
         if not prep:
             raise AnalysisBroken(f'anchor vanished: {en} does not call prepare_fragments_for_decode')
-        pc = prep[0]
+        pc0 = prep[0]
         arr_vals = {}
-        for v, role in ((strip_ptr_casts(g, pc.ops[2]), 'data'), (strip_ptr_casts(g, pc.ops[3]), 'parity')):
+        for v, role in ((strip_ptr_casts(g, pc0.ops[2]), 'data'), (strip_ptr_casts(g, pc0.ops[3]), 'parity')):
             Aa, _ = own.aliases(g, [v])
             for x in Aa:
                 arr_vals[x] = role
-        kv = Cg.val(strip_int_casts(g, pc.ops[0]))
-        k_ssa, m_ssa = strip_int_casts(g, pc.ops[0]), strip_int_casts(g, pc.ops[1])
+        kv = Cg.val(strip_int_casts(g, pc0.ops[0]))
+        k_ssa, m_ssa = strip_int_casts(g, pc0.ops[0]), strip_int_casts(g, pc0.ops[1])
         mv = Cg.val(m_ssa)
         def phi_may_be(name, target, depth=0):
             d = g.defs.get(name)
@@ -149,40 +175,71 @@ def run(ctx):
                     return mv
                 return mm.group(0)
             return re.sub(r'phi(%[\w.]+)', rep, e) if e else e
+        from ..poly import PolyCtx, Poly
+        from ..loops import loops_of, innermost, affine_in_t
+        pc = PolyCtx(P, g, Cg)
+        LS = loops_of(P, g, pc)
+        roots = {}
+        for x, role in arr_vals.items():
+            roots[pc.ptr(x)[0]] = role
+        def normp(p):
+            def ren(a):
+                if a.startswith('%'):
+                    if phi_may_be(a, k_ssa): return kv
+                    if phi_may_be(a, m_ssa): return mv
+                return a
+            return p.rename(ren)
+        K, M = normp(pc.val(k_ssa)), normp(pc.val(m_ssa))
         frees = []
         for i in g.insts():
             if i.op == 'call' and i.callee == '@free':
                 d = g.defs.get(strip_ptr_casts(g, i.ops[0]))
-                if d is not None and d.op == 'load':
-                    gg = g.defs.get(d.ops[0])
-                    if gg is not None and gg.op == 'getelementptr' and strip_ptr_casts(g, gg.ops[0]) in arr_vals:
-                        frees.append((i, arr_vals[strip_ptr_casts(g, gg.ops[0])], Cg.val(strip_int_casts(g, gg.ops[-1])), gg))
+                if d is None or d.op != 'load':
+                    continue
+                LL = innermost(LS, i.bb)
+                pt = pc.ptr(d.ops[0])
+                if LL is not None:
+                    pt = LL.ptr_at_iteration(*pt) or pt
+                if pt[0] in roots:
+                    frees.append((i, roots[pt[0]], pt[1], LL))
         roles = {ro for _, ro, _, _ in frees}
         for need in ('data', 'parity'):
             if need not in roles:
-                r.fail(f'{en}: flagged {need}[] entries are freed', func=g.name, sig=f'no free of {need}[i]', loc=pc.loc,
+                r.fail(f'{en}: flagged {need}[] entries are freed', func=g.name, sig=f'no free of {need}[i]', loc=pc0.loc,
                        msg=f'{en} never frees the {need} buffers allocated by prepare_fragments_for_decode')
-        ipd = postdominators(g)
-        for i, role, iv, gg in frees:
+        for i, role, off, LL in frees:
+            inst = f'{en}: free({role}[i]) under bit {"i" if role == "data" else "k+i"}, i < {"k" if role == "data" else "m"}'
+            if LL is None:
+                r.fail(inst, func=g.name, sig=f'{role}[] freed outside a loop', loc=i.loc, msg=f'{role}[...] is freed outside a loop over the fragments')
+                continue
             F = Facts(P, g, i.bb)
-            # guard: (realloc_bm & (1 << X)) != 0
-            ok = False
-            want = {iv} if role == 'data' else {f'({kv} add {iv})', f'({iv} add {kv})'}
-            found = None
+            idx = pdiv(off, 8)
+            ab = affine_in_t(normp(idx)) if idx is not None else None
+            # guard: (realloc_bm & (1 << X)) != 0 with X(t) - index(t) == 0 (data) or k (parity)
+            ok, found = False, None
             for raw, truth in F.raw:
                 if raw.op == 'icmp' and truth == (raw.pred == 'ne') and '0' in raw.ops:
                     o = raw.ops[0] if raw.ops[1] == '0' else raw.ops[1]
-                    sa = norm_km(shift_amount_of(g, Cg, o))
-                    if sa is not None:
-                        found = sa
-                        if sa in want:
-                            ok = True
-            bound = [norm_km(b) for b, strict, sg in F.upper_bound_sym(iv) if strict]
-            wantb = kv if role == 'data' else Cg.val(strip_int_casts(g, pc.ops[1]))
-            inst = f'{en}: free({role}[i]) under bit {"i" if role == "data" else "k+i"}, i < {"k" if role == "data" else "m"}'
-            if ok and wantb in bound:
-                # every exit after prepare passes the loop: the loop header post-dominates the prepare call
-                lp = shared._loop_of(g, i.bb)
+                    X = shift_amount_ssa(g, o)
+                    if X is None or ab is None:
+                        continue
+                    bit = LL.at_iteration(pc.val(X))
+                    if bit is None:
+                        continue
+                    bit = normp(bit)
+                    found = str(bit)
+                    diff = bit - normp(idx)
+                    if (role == 'data' and diff.is_zero()) or (role == 'parity' and diff == K):
+                        ok = True
+            # range: index 0 .. bound-1, one entry per iteration
+            wantb = K if role == 'data' else M
+            rng = None
+            if ab is not None and ab[0].is_zero() and ab[1] == Poly.const(1):
+                for gd in LL.guards():
+                    tr = LL.trip(gd)
+                    if gd.block is LL.header and tr is not None and normp(tr) == wantb:
+                        rng = gd
+            if ok and rng is not None:
                 # every exit after prepare passes the loop header, or the edge on which realloc_bm == 0 (nothing flagged)
                 zero_edges = set()
                 for bb in g.order:
@@ -192,20 +249,19 @@ def run(ctx):
                         if cc is not None and cc.op == 'icmp' and cc.pred in ('ne', 'eq') and '0' in cc.ops:
                             o = cc.ops[0] if cc.ops[1] == '0' else cc.ops[1]
                             od = g.defs.get(o)
-                            if od is not None and od.op == 'load' and strip_ptr_casts(g, od.ops[0]) == strip_ptr_casts(g, pc.ops[-1]):
+                            if od is not None and od.op == 'load' and strip_ptr_casts(g, od.ops[0]) == strip_ptr_casts(g, pc0.ops[-1]):
                                 zero_edges.add((bb, g.blocks[tt.targets[1] if cc.pred == 'ne' else tt.targets[0]]))
-                pd_ok = False
-                if lp is not None:
-                    R = reachable_from(pc.bb, avoid_edges=zero_edges, avoid_blocks={lp[0]})
-                    pd_ok = not any(bb.insts[-1].op == 'ret' for bb in R)
-                if pd_ok:
+                R = reachable_from(pc0.bb, avoid_edges=zero_edges, avoid_blocks={LL.header})
+                if not any(bb.insts[-1].op == 'ret' for bb in R):
                     r.ok(inst, func=g.name, loc=i.loc)
                 else:
                     r.fail(inst, func=g.name, sig=f'free loop for {role} can be skipped', loc=i.loc, msg=f'an exit after prepare_fragments_for_decode bypasses the loop that frees flagged {role} buffers')
             else:
-                r.fail(inst, func=g.name, sig=f'free of {role}[i] guarded by bit {found}, bound {bound}', loc=i.loc,
-                       msg=f'{role}[i] is freed under bit {found} with i < {bound}: must be bit {sorted(want)[0]} with i < {wantb}')
-    r.require_min(8)
+                trips = [str(normp(LL.trip(gd))) for gd in LL.guards() if LL.trip(gd) is not None]
+                r.fail(inst, func=g.name, sig=f'free of {role}[i] guarded by bit {found}, index {idx}, iterations {trips}', loc=i.loc,
+                       msg=f'{role}[{normp(idx) if idx is not None else "?"}] is freed under bit {found} over {trips} iterations: must be bit '
+                           f'{"index" if role == "data" else "index + k"} for index 0 .. {wantb}-1')
+    r.require_min(6)
 
     # ---------------- R16c
     r = ctx.rule('R16c', 'encode_cleanup frees k data and m parity fragments and both arrays; decode_cleanup frees its argument',
